@@ -108,19 +108,26 @@ def _psd(case):
     dims = dict(sensor_dim=sd - n if neg else sd, time_dim=td - n if neg else td)
     if mtype == 'source':
         dims['source_dim'] = kd - n if neg else kd
+    omitted = []
+    if case['seed'] % 2:
+        # arguments equal to their documented defaults are left out of the call (sensor_dim=-2, source_dim=-2, time_dim=-1)
+        for name, ax, dflt in (('sensor_dim', sd, n - 2), ('source_dim', kd if mtype == 'source' else None, n - 2), ('time_dim', td, n - 1)):
+            if ax is not None and ax == dflt and name in dims:
+                del dims[name]
+                omitted.append(name)
     d_obs, d_mask = enc.digest(obs), (enc.digest(mask) if mask is not None else '')
     obs.setflags(write=False)
     if mask is not None:
         mask.setflags(write=False)
     out, exc = _call(bf.get_power_spectral_density_matrix, obs, mask, normalize=case['normalize'], **dims)
     pure = enc.digest(obs) == d_obs and (mask is None or enc.digest(mask) == d_mask)
-    rec = dict(kind='psd', n=n, oshape=enc.shape(obs), obs=enc.acint(obs), sd=dims['sensor_dim'],
-               td=dims['time_dim'], kd=dims.get('source_dim', -2), mtype=mtype,
+    rec = dict(kind='psd', n=n, oshape=enc.shape(obs), obs=enc.acint(obs), sd=dims.get('sensor_dim', -2),
+               td=dims.get('time_dim', -1), kd=dims.get('source_dim', -2), mtype=mtype,
                mshape=[] if mask is None else enc.shape(mask),
                mask=[] if mint is None else enc.aint(mint), normalize=case['normalize'], exc=exc, pure=bool(pure),
                out_shape=[] if out is None else enc.shape(out),
                out=[] if out is None else enc.acrat(out),
-               fp=f'fn=get_power_spectral_density_matrix;mtype={mtype};mask={mk};layout=n{n}sd{sd}td{td}kd{kd}',
+               fp=f'fn=get_power_spectral_density_matrix;mtype={mtype};mask={mk};layout=n{n}sd{sd}td{td}kd{kd};omitted={omitted}',
                key=f'psd:{case["seed"]}')
     return [rec]
 
